@@ -170,12 +170,13 @@ def check(ctx):
     ro = evaluate(repo, od)
     rets = [r for r in ro.returns]
     ok = False
-    if len(rets) == 2:
-        last = rets[-1][1]
+    merged = ro.ret()
+    if merged is not None and merged[0] == "phi" and merged[1] == ("a", SELF, "model") \
+            and merged[3] == c(True):
+        last = merged[2]
         ok = (is_call(last, "any") and last[2] and last[2][0][0] == "comp"
               and last[2][0][3][0][1] == ("call", ("a", SELF, "all_input_nodes"), (), ())
-              and last[2][0][2] == ("a", ("iter", last[2][0][3][0][1]), "outdated")
-              and rets[0][1] == c(True))
+              and last[2][0][2] == ("a", ("iter", last[2][0][3][0][1]), "outdated"))
     ctx.ob("C01.R3", od, "TransientNode.outdated = any(input.outdated for input in "
                          "all_input_nodes()) (True outside a model) -- never a cached flag",
            ok, detail=str([short(r[1]) for r in rets]), stmt="transient outdated")
@@ -274,8 +275,8 @@ def check(ctx):
            detail=str(cutters))
     outd = method(repo, base, "outdated", "getter", own=True)
     rod = evaluate(repo, outd)
-    ok = (len(rod.returns) == 2 and rod.returns[-1][1] == ("a", SELF, "_outdated")
-          and rod.returns[0][1] == c(True))
+    # (as a function: the flag inside a model, True outside -- however the branch is written)
+    ok = rod.ret() == ("phi", ("a", SELF, "model"), ("a", SELF, "_outdated"), c(True))
     ctx.ob("C01.R4", outd, "Node.outdated reports the cached flag (True outside a model)", ok)
 
     # ------------------------------------------------------------------ R5
@@ -360,7 +361,8 @@ def check(ctx):
             ok_r = (len(conds_) == 1 and [(a, p_) for a, p_ in next(iter(conds_))
                                           if a[0] != "inloop"] == [(member, False)]
                     and seen_t[0] == "carried" and seen_t[2][0] == "list" and seen_t[2][1] == ()
-                    and rr.ret() == ("loop", seen_t[1], ("mut", seen_t, "append", (pop[0],), ())))
+                    and rr.ret() == ("loop", seen_t[1], ("phi", member, seen_t, (
+                        "mut", seen_t, "append", (pop[0],), ()))))
     ctx.ob("C01.R6", rin, "_recursive_inputs is the worklist closure of the named node "
                           "under all_input_nodes() (including `at` of distributions), the "
                           "node itself included", ok_r,
@@ -405,12 +407,15 @@ def check(ctx):
                 if isinstance(t, ast.Attribute) and t.attr in ("_value", "_outdated"):
                     n_sites += 1
                     on_self = isinstance(t.value, ast.Name) and t.value.id == "self"
+                    # (a helper extracted from a tabled site writes on that site's behalf)
+                    from .common import owners
+                    own_q = owners(repo, fi)
                     if on_self:
                         okw = (fi.cls is not None and fi.cls.qualname in node_quals
-                               and fi.name in WRITE_OK)
+                               and all(o.rsplit(".", 1)[-1] in WRITE_OK for o in own_q))
                         why = "a node class's own protocol method"
                     else:
-                        okw = fi.qualname in FOREIGN_OK
+                        okw = all(o in FOREIGN_OK for o in own_q)
                         why = "a tabled foreign writer"
                     ctx.ob("C01.R8", fi, f"the cache field {t.attr} is written only by the "
                                          f"dirty-flag protocol sites ({why}); any other write "
@@ -431,7 +436,8 @@ def check(ctx):
                         and recv == "self":
                     continue
                 n_sites += 1
-                okc = fi.qualname in UPDATE_CALLERS_OK
+                from .common import owners
+                okc = all(o in UPDATE_CALLERS_OK for o in owners(repo, fi))
                 ctx.ob("C01.R8", fi, "node.update() is called only by the sweep sites "
                                      "(Model.update / Model.__init__ in topological order) "
                                      "and the two tabled user-level entry points", okc,
